@@ -333,11 +333,32 @@ static void mem_ops(struct lp_state *s, uint64_t r)
 	}
 }
 
+/* "For all states of the per-LP generator": every non-zero state lies on the single cycle of xoshiro256**, so any state is a
+ * legal one; waiting 2^64 draws for the interesting ones is not an option.  The state is rewritten (inside the rollbackable
+ * generator context, as a function of the event alone, so that re-execution repeats it) such that the next 64-bit output is a
+ * chosen extreme value: output = rotl(s[1] * 5, 7) * 9 is a bijection of s[1]. */
+static void rng_craft(uint64_t sel)
+{
+	static const uint64_t want[] = {0, 1, 2, 3, 0x7ff, 0x800, 0xfff, 1ULL << 52, (1ULL << 53) - 1, 1ULL << 63, (1ULL << 63) - 1, ~0ULL, ~0ULL - 1,
+	    0xffffffffULL, 1ULL << 32};
+	RNG_PROLOGUE();
+	struct lp_ctx *lp = *rk->p_current_lp();
+	if(!lp || !lp->rng_ctx)
+		return;
+	uint64_t v = want[sel % (sizeof(want) / sizeof(*want))] * 0x8E38E38E38E38E39ULL; /* / 9 */
+	v = (v >> 7) | (v << 57);                                                        /* rotr 7 */
+	lp->rng_ctx->state[1] = v * 0xCCCCCCCCCCCCCCCDULL;                               /* / 5 */
+}
+
 static void rng_ops(struct lp_state *s, uint64_t r)
 {
+	if(P.m_rng_craft && ((r >> 40) & 15) == 0)
+		rng_craft(r >> 44);
 	s->libsum = mix64(s->libsum, dbits(Random()));
 	if(P.m_rng < 2)
 		return;
+	if(P.m_rng_craft && ((r >> 52) & 15) == 0)
+		rng_craft(r >> 56);
 	switch((r >> 4) % 7) {
 		case 0:
 			s->libsum = mix64(s->libsum, (uint64_t)RandomRange(-3, 40));
